@@ -23,10 +23,13 @@ def interpF (x : Float) : List Float → List Float → Float
 
 def hllAlpha (m : Nat) : Float := 0.7213 / (1.0 + 1.079 / Float.ofNat m)
 
-/-- `_estimation_function`: `alpha * m^2 / Σ 2^(-r)` summed in register order -/
-def hllRawF (m : Nat) (regs : Array Nat) : Float :=
-  let total := regs.foldl (fun t r => t + Float.exp2 (-(Float.ofNat r))) 0.0
-  hllAlpha m * Float.ofNat (m * m) / total
+/-- `_estimation_function(registers, m, alpha)`: `alpha * m^2 / Σ 2.0 ** (-r)`, summed in register order from 0.0
+    (`Properties/SrcFloat.lean` proves this equal to the function as translated from the source) -/
+def hllEstimationF (alpha : Float) (m : Nat) (regs : List Nat) : Float :=
+  let total := regs.foldl (fun t r => t + Float.pow 2.0 (-(Float.ofNat r))) 0.0
+  alpha * Float.ofNat (m * m) / total
+
+def hllRawF (m : Nat) (regs : Array Nat) : Float := hllEstimationF (hllAlpha m) m regs.toList
 
 def hllLinearCountingF (m nZero : Nat) : Float :=
   Float.ofNat m * Float.log (Float.ofNat m / Float.ofNat nZero)
